@@ -26,7 +26,7 @@ type NestedInput struct {
 	Budget int    `json:"budget"` // bytes the bottom writer accepts; < 0: never fails
 }
 
-var nestPrefixes = []string{">", ">\n", "", "\t "}
+var nestPrefixes = []string{">", ">\n", "", "\t ", "a"}
 var nestChunks = []string{"a", "\n", "a\n", "\nb", "ab", "a\n\nb"}
 
 func checkNested(in NestedInput) (ok bool, v verdict) {
